@@ -135,6 +135,18 @@ func c11Shapes(thorough bool) map[string][]sstEntry {
 		lk = append(lk, sstEntry{Key: []byte(fmt.Sprintf("%s%02d", long, i)), Val: []byte{byte(i)}, Seq: uint64(i)})
 	}
 	shapes["long-shared-prefix"] = lk
+	// keys at the format limit (the key length is a 16-bit field): 65535 and 65534 bytes, stored prefix-compressed
+	// behind a short key and behind a key sharing most of their bytes
+	for _, n := range []int{65535, 65534} {
+		kmax := append([]byte("b"), bytes.Repeat([]byte("x"), n-1)...)
+		kmax2 := append(append([]byte{}, kmax[:n-1]...), 'y')
+		shapes[fmt.Sprintf("key%d", n)] = []sstEntry{
+			{Key: []byte("a"), Val: []byte("1"), Seq: 1},
+			{Key: kmax, Val: []byte("2"), Seq: 2},
+			{Key: kmax2, Val: []byte("3"), Seq: 3},
+			{Key: []byte("c"), Val: []byte("4"), Seq: 4},
+		}
+	}
 	// multi-block tables: 20 KiB values, 64 KiB blocks
 	big := func(i int) []byte { return bytes.Repeat([]byte{byte('A' + i%26)}, 20*1024) }
 	shapes["blocks2"] = mk(5, nil, big)
@@ -503,7 +515,7 @@ func init() {
 	fw.Register(&fw.Check{
 		ID:    "C11",
 		Level: "exploration",
-		Rule: "entry sets: n in {1,2,15,16,17,18,31,32,33,40} x {plain, alternating / restart-edge tombstones, empty values}, all tombstone masks for n<=4 (6 thorough), prefix/binary keys, long shared prefixes, 2/3(/5)-block tables; for each: forward iteration (from SeekToFirst, and by Next alone on a fresh iterator), Seek to every key / successor / predecessor / both ends followed by iteration to the end, SeekToLast, Get of every key and every non-key target. " +
+		Rule: "entry sets: n in {1,2,15,16,17,18,31,32,33,40} x {plain, alternating / restart-edge tombstones, empty values}, all tombstone masks for n<=4 (6 thorough), prefix/binary keys, long shared prefixes, keys of 65535 and 65534 bytes (the format limit) stored prefix-compressed, 2/3(/5)-block tables; for each: forward iteration (from SeekToFirst, and by Next alone on a fresh iterator), Seek to every key / successor / predecessor / both ends followed by iteration to the end, SeekToLast, Get of every key and every non-key target. " +
 			"Damage: every byte (files <= 8 KiB; head, 251-stride (every byte in the thorough tier) and last 6 KiB for larger) x {^0x01, ^0x80, 0xFF}: open+iterate+get must fail or yield only written entries. Non-trivial = tables with >1 entry / damaged opens that were evaluated to the end",
 		Assumptions: []string{"key/value sizes up to 20 KiB values and 302-byte keys; single-byte damage only"},
 		Units: func(tier string) []string {
